@@ -284,7 +284,7 @@ var StructTypes = []reflect.Type{
 	T(CN1{}), T(CN2{}), T(NMapHolder{}),
 	T(ManyF{}), T(ManyL{}),
 	T(Node{}), T(FNode{}), T(Ping{}), T(Pong{}), T(ENode{}), T(DeepNil{}),
-	T(MapAndLists{}), T(Wrap{}), T(WrapList{}), T(PtrTime{}),
+	T(MapAndLists{}), T(Wrap{}), T(WrapList{}), T(PtrTime{}), T(Named{}),
 }
 
 // TypeByName finds a zoo struct type.
@@ -463,4 +463,28 @@ type PtrTime struct {
 	T *time.Time
 	A *Inner
 	B *Inner
+}
+
+// ---- named basic types (enums, labels): the kind is supported, the type is not the basic type
+
+type Status int32
+type Level int8
+type BigID uint64
+type Label string
+type Flag bool
+type Ratio float64
+type Small float32
+
+type Named struct {
+	St Status
+	Lv Level
+	ID BigID
+	L  Label
+	F  Flag
+	R  Ratio
+	Sm Small
+	Ls []Status
+	Ll []Label
+	M  map[Label]Status
+	MV map[string]Ratio
 }
